@@ -326,3 +326,78 @@ def unitary(ctx, d, parity):
     grams = [D.matmul(ctx, D.conj_t(ctx, k), k) for k in Ks]
     ctx.eq('P^H P == embedding of the blocks E_i^H E_i (so unitary blocks give a unitary stage)', D.matmul(ctx, D.conj_t(ctx, P), P),
            _stage_matrix(ctx, grams, d, n, parity), form='III')
+
+
+# ------------------------------------------------------------------ normalisation (all four schemes)
+def _norm_grid(tier):
+    out = []
+    for scheme in ('lie_splitting', 'strang_splitting', 'yoshida_splitting', 'kahan_li_splitting'):
+        for normalize in (1, 2):
+            for d in (2, 3):
+                out.append({'scheme': scheme, 'normalize': normalize, 'd': d, 'cplx': False, 'steps': 2})
+        out.append({'scheme': scheme, 'normalize': 2, 'd': 2, 'cplx': True, 'steps': 1})
+    return out
+
+
+@scenario('C10', 'normalisation', _norm_grid)
+def normalisation(ctx, scheme, normalize, d, cplx, steps):
+    """normalize = 1 / 2: every produced state is the un-normalised state of that step divided by its Manhattan / Euclidean TT norm (symbolic: the
+    stages are replaced by the identity so that the step is cheap -- their value is the `stage`/`schedule`/`one_step` claim -- and TT.norm by a
+    recording environment call; concrete replays run the unmodified integrator and check the unit norm of every state against the dense tensor)"""
+    TT, ode = ctx.R.TT, ctx.R.ode
+    if ctx.mode == 'tv':
+        from symtt.core import SkipTV
+        raise SkipTV()
+    n = 2
+    sx = {'rows': [n] * d, 'cols': [1] * d, 'ranks': [1] + [2] * (d - 1) + [1]}
+    lo = 0 if normalize == 1 else None          # Manhattan norm: documented for non-negative entries
+    label = '%s: every produced state has unit %d-norm' % (scheme, normalize)
+    if ctx.mode == 'conc':
+        S, L, I, M = _components(ctx, d, n, 1, cplx, True)
+        if normalize == 1:
+            S, L, M = np.abs(S), np.abs(L), np.abs(M)
+        x0 = TT([np.abs(c) if normalize == 1 else c for c in mk_cores(ctx, 'x', sx, cplx)])
+        h = abs(ctx.scalar('h', lo=(0,)))
+        sol = getattr(ode, scheme)(S, L, I, M, x0, h, steps, threshold=0, max_rank=50, normalize=normalize)
+        ok = len(sol) == steps + 1
+        worst = 0.0
+        for t in sol[1:]:
+            f = np.asarray(t.full()).reshape(-1)
+            if normalize == 2:
+                nv = float(np.linalg.norm(f))
+            else:
+                if np.min(np.real(f)) < -1e-12:
+                    continue                     # outside the documented domain of the Manhattan norm
+                nv = float(np.sum(np.real(f)))
+            worst = max(worst, abs(nv - 1.0))
+        ctx.check(label, ok and worst <= 1e-8, detail='max | ||x_k|| - 1 | = %.3e' % worst)
+        return
+    from symtt import state, lapack
+    from .C09 import NormStub
+    state.reset()
+    lapack.set_policy(lapack.TrivPolicy())
+    S, L, I, M = _components(ctx, d, n, 1, cplx, True)
+    h = ctx.scalar('h', lo=(0,))
+    x0 = TT(mk_cores(ctx, 'x', sx, cplx, **({'lo': 0} if lo == 0 else {})))
+    xd = D.as_matrix(D.tt_full(ctx, mk_cores(ctx, 'x', sx, cplx, **({'lo': 0} if lo == 0 else {}))), d)
+    stages = []
+    real_stage = getattr(ode, '__splitting_stage')
+
+    def ident(K, indices, tmp, threshold, max_rank):
+        stages.append(1)
+        return tmp
+    setattr(ode, '__splitting_stage', ident)
+    try:
+        with NormStub(ctx, TT) as ns:
+            sol = getattr(ode, scheme)(S, L, I, M, x0, h, steps, threshold=0, max_rank=50, normalize=normalize)
+    finally:
+        setattr(ode, '__splitting_stage', real_stage)
+    with ctx.group(label):
+        ok = ctx.check('%s: steps + 1 states and one TT.norm call per step with p = normalize' % scheme,
+                       len(sol) == steps + 1 and len(ns.calls) == steps and all(c['p'] == normalize for c in ns.calls) and len(stages) > 0)
+        if ok:
+            cur = xd
+            for k in range(steps):
+                ctx.eq('%s step %d: TT.norm is applied to the un-normalised state of the step' % (scheme, k), ns.calls[k]['arg'], cur)
+                cur = D.scale(ctx, ctx.const_frac(1) / ns.calls[k]['nu'], cur)
+                ctx.eq('%s step %d: produced state == un-normalised state / its norm' % (scheme, k), D.as_matrix(sol[k + 1].full(), d), cur)
